@@ -357,7 +357,7 @@ static void point_hook(const char *tag, int arg)
 // ------------------------------------------------------------------ the system under test
 static int g_T = 2, g_n = 70;
 static bool g_enc = true;
-static const int DEC_PAD = 5;
+static int DEC_PAD = 5; // last byte of the body when decrypting (bytes stripped by the final export); 1..10 or 16
 struct RecMode : public Aesmode
 {
   int stream;
@@ -742,6 +742,8 @@ int main(int argc, char **argv)
   g_T = atoi(argv[2]);
   g_enc = std::string(argv[3]) == "enc";
   g_n = atoi(argv[4]);
+  if (getenv("WV_DEC_PAD"))
+    DEC_PAD = atoi(getenv("WV_DEC_PAD"));
   wv_point_fn = point_hook;
   signal(SIGSEGV, crash_handler);
   signal(SIGBUS, crash_handler);
